@@ -753,6 +753,7 @@ fn directive_trivia(body: &str, rng: &mut crate::prng::Rng, no_splices: bool) ->
     };
     let mut out = String::new();
     let mut seen_string = false;
+    let mut seen_angle = false;
     // inside a float literal with a signed exponent (1.5e+38f) there is no token boundary
     let mut glued = 0u8;
     for (k, u) in units.iter().enumerate() {
@@ -769,13 +770,15 @@ fn directive_trivia(body: &str, rng: &mut crate::prng::Rng, no_splices: bool) ->
             glued = 2;
         }
         let boundary = !in_literal
-            && k > name_at
+            // (the gap between "#" and the directive's name is a token boundary like any other)
+            && (k > name_at || (k == name_at && units[..k].iter().any(|x| x == "#")))
             && !blank(u)
             && prev.is_some_and(|p| !p.ends_with(['<', '>']))
             && !(macro_name_at.is_some_and(|m| k == m + 1) && u == "(")
             // (angle-bracket include operands are not tokenised as strings here: leave them)
-            && !(is_include && (seen_string || u == "<" || prev.is_some_and(|p| p == "<")))
-            && !(is_include && !u.starts_with('"'));
+            // (an include operand is left alone inside; trivia may stand in front of it)
+            && !(is_include && k > name_at && (seen_string || seen_angle))
+            && !(is_include && k > name_at && !u.starts_with('"') && u != "<");
         if boundary && rng.chance(1, 3) {
             let near_slash = u.starts_with(['/', '*']) || prev.is_some_and(|p| p.ends_with(['/', '*']));
             let t = [" ", "\t", "/*t*/", " /* t */ ", "\\\n", " \\\n  "][rng.below(6) as usize];
@@ -783,6 +786,9 @@ fn directive_trivia(body: &str, rng: &mut crate::prng::Rng, no_splices: bool) ->
         }
         if u.starts_with('"') {
             seen_string = true;
+        }
+        if is_include && k > name_at && u.starts_with('<') {
+            seen_angle = true;
         }
         out.push_str(u);
     }
